@@ -7,7 +7,11 @@ use crate::sx::{a, b, l, text, Sx};
 use stam::*;
 use std::collections::BTreeSet;
 
-pub struct Ctx;
+/// the fixed store of the collection-constraint cases: two resources, two data sets whose data,
+/// key and text-selection handles coincide numerically
+pub struct Ctx {
+    store: AnnotationStore,
+}
 
 // ---------------------------------------------------------------- encoding
 fn e_str(s: &str) -> Sx {
@@ -506,9 +510,105 @@ fn print_and_back(q: &Query, printed: &mut Option<String>) -> (Sx, Sx) {
     }
 }
 
+fn fixed_store() -> AnnotationStore {
+    let mut store = AnnotationStore::new(Config::default().with_generate_ids(false))
+        .with_id("c09")
+        .with_resource(TextResourceBuilder::new().with_id("res0").with_text("Hello brave new world"))
+        .unwrap()
+        .with_resource(TextResourceBuilder::new().with_id("res1").with_text("Another text here"))
+        .unwrap();
+    let anns: Vec<AnnotationBuilder> = vec![
+        AnnotationBuilder::new().with_id("A0").with_target(SelectorBuilder::textselector("res0", Offset::simple(0, 5))).with_data("posset", "pos", "verb"),
+        AnnotationBuilder::new().with_id("A1").with_target(SelectorBuilder::textselector("res1", Offset::simple(0, 7))).with_data("lemmaset", "lemma", "fly"),
+        AnnotationBuilder::new().with_id("A2").with_target(SelectorBuilder::textselector("res0", Offset::simple(6, 11))).with_data("posset", "pos", "noun").with_data("posset", "n", 3isize),
+        AnnotationBuilder::new().with_id("A3").with_target(SelectorBuilder::textselector("res1", Offset::simple(8, 12))).with_data("lemmaset", "lemma", "walk").with_data("lemmaset", "flag", true),
+        AnnotationBuilder::new().with_target(SelectorBuilder::textselector("res0", Offset::simple(12, 15))).with_data("lemmaset", "n", 7isize),
+    ];
+    for b in anns {
+        store.annotate(b).expect("fixed store");
+    }
+    store
+}
+
+/// what the store says about one item of a collection, looked up item by item; () = no such item
+fn describe(store: &AnnotationStore, kind: i64, it: &Sx) -> Sx {
+    let x = it.nth(0).int() as usize;
+    let y = it.nth(1).int() as usize;
+    let none = l(vec![]);
+    match kind {
+        0 => match store.annotation(AnnotationHandle::new(x)) {
+            Some(an) => l(vec![e_str(&an.id().map(|s| s.to_string()).unwrap_or_else(|| format!("!A{}", x)))]),
+            None => none,
+        },
+        1 => match store.dataset(AnnotationDataSetHandle::new(x)).and_then(|set| set.annotationdata(AnnotationDataHandle::new(y)).map(|d| (set, d))) {
+            Some((set, d)) => l(vec![
+                e_str(set.id().unwrap_or("")),
+                e_str(d.key().id().unwrap_or("")),
+                match d.value() {
+                    DataValue::Null => l(vec![a(0)]),
+                    DataValue::Bool(true) => l(vec![a(2)]),
+                    DataValue::Bool(false) => l(vec![a(3)]),
+                    DataValue::String(s) => l(vec![a(4), e_str(s)]),
+                    DataValue::Int(z) => l(vec![a(5), e_big(*z as i128)]),
+                    _ => l(vec![a(16)]),
+                },
+            ]),
+            None => none,
+        },
+        2 => match store.dataset(AnnotationDataSetHandle::new(x)).and_then(|set| set.key(DataKeyHandle::new(y)).map(|k| (set, k))) {
+            Some((set, k)) => l(vec![e_str(set.id().unwrap_or("")), e_str(k.id().unwrap_or(""))]),
+            None => none,
+        },
+        3 => match store.resource(TextResourceHandle::new(x)) {
+            Some(r) => l(vec![e_str(r.id().unwrap_or(""))]),
+            None => none,
+        },
+        _ => match store.resource(TextResourceHandle::new(x)).and_then(|r| r.textselection_by_handle(TextSelectionHandle::new(y)).ok().map(|t| (r, t))) {
+            Some((r, t)) => l(vec![e_str(r.id().unwrap_or("")), e_big(t.begin() as i128), e_big(t.end() as i128)]),
+            None => none,
+        },
+    }
+}
+
 impl Ctx {
     pub fn new() -> Self {
-        Ctx
+        Ctx { store: fixed_store() }
+    }
+    /// (3 kind qual depth items): SELECT ANNOTATION ?x WHERE <collection constraint>
+    fn exec_collection(&self, req: &Sx) -> (Sx, Vec<Sx>, bool) {
+        let store = &self.store;
+        let kind = req.nth(1).int();
+        let qual = d_qual(req.nth(2));
+        let depth = d_depth(req.nth(3));
+        let items = req.nth(4).list();
+        let descr: Vec<Sx> = items.iter().map(|it| guard(|| describe(store, kind, it)).unwrap_or_else(|| l(vec![]))).collect();
+        let r = guard(|| {
+            let pair = |it: &Sx| (it.nth(0).int() as usize, it.nth(1).int() as usize);
+            let c = match kind {
+                0 => Constraint::Annotations(Handles::from_iter(items.iter().map(|it| AnnotationHandle::new(pair(it).0)), store), qual, depth),
+                1 => Constraint::Data(
+                    Handles::from_iter(items.iter().map(|it| (AnnotationDataSetHandle::new(pair(it).0), AnnotationDataHandle::new(pair(it).1))), store),
+                    qual,
+                ),
+                2 => Constraint::Keys(
+                    Handles::from_iter(items.iter().map(|it| (AnnotationDataSetHandle::new(pair(it).0), DataKeyHandle::new(pair(it).1))), store),
+                    qual,
+                ),
+                3 => Constraint::Resources(Handles::from_iter(items.iter().map(|it| TextResourceHandle::new(pair(it).0)), store), qual),
+                _ => Constraint::TextSelections(
+                    Handles::from_iter(items.iter().map(|it| (TextResourceHandle::new(pair(it).0), TextSelectionHandle::new(pair(it).1))), store),
+                    qual,
+                ),
+            };
+            let q = Query::new(QueryType::Select, Some(Type::Annotation), Some("x")).with_constraint(c);
+            let mut pr = None;
+            print_and_back(&q, &mut pr)
+        });
+        let outs = match r {
+            Some((o1, o2)) => vec![o1, o2],
+            None => vec![panic_sx(), na()],
+        };
+        (l(vec![a(3), a(kind), req.nth(2).clone(), req.nth(3).clone(), l(descr)]), outs, items.len() > 1)
     }
     pub fn exec(&self, req: &Sx) -> (Sx, Vec<Sx>, bool) {
         let kind = req.nth(0).int();
@@ -543,6 +643,8 @@ impl Ctx {
             }
             let (dts, res) = tables(&texts, &[]);
             (l(vec![a(0), req.nth(1).clone(), dts, res]), outs, ok && printed.is_some())
+        } else if kind == 3 {
+            self.exec_collection(req)
         } else if kind == 2 {
             // deep nesting: run in a child process, a stack overflow aborts the process
             let n = req.nth(1).int() as usize;
@@ -1235,6 +1337,45 @@ pub fn generate(out: &mut Out, tier: &str, seed: u64) {
         }
     }
 
+    // 4c. collection constraints over the fixed store: every sequence of up to 3 items (handles of both
+    // data sets / resources, coinciding handle numbers, any order, repeats) x qualifier x depth
+    let universes: [(i64, Vec<(i64, i64)>); 5] = [
+        (0, (0..5).map(|h| (h, 0)).collect()),
+        (1, vec![(0, 0), (0, 1), (0, 2), (1, 0), (1, 1), (1, 2), (1, 3)]),
+        (2, vec![(0, 0), (0, 1), (1, 0), (1, 1), (1, 2)]),
+        (3, vec![(0, 0), (1, 0)]),
+        (4, vec![(0, 0), (0, 1), (0, 2), (1, 0), (1, 1)]),
+    ];
+    for (kind, uni) in universes.iter() {
+        let mut seqs: Vec<Vec<(i64, i64)>> = uni.iter().map(|x| vec![*x]).collect();
+        let mut frontier = seqs.clone();
+        for _ in 0..2 {
+            let mut next = Vec::new();
+            for p in &frontier {
+                for x in uni {
+                    let mut q = p.clone();
+                    q.push(*x);
+                    next.push(q);
+                }
+            }
+            seqs.extend(next.iter().cloned());
+            frontier = next;
+        }
+        // one item that does not exist
+        seqs.push(vec![uni[0], (9, 9)]);
+        seqs.push(vec![(uni[uni.len() - 1].0, 9), uni[0]]);
+        for sq in &seqs {
+            let variants: &[(i64, i64)] = if *kind == 0 { &[(0, 1), (1, 1), (1, 2)] } else { &[(0, 1), (1, 1)] };
+            for (qual, depth) in variants {
+                if !thorough && sq.len() == 3 && (sq[0].0 + sq[1].1 + sq[2].1 + qual) % 2 == 1 {
+                    continue;
+                }
+                let items: Vec<Sx> = sq.iter().map(|(x, y)| l(vec![a(*x), a(*y)])).collect();
+                emit(out, l(vec![a(3), a(*kind), a(*qual), a(*depth), l(items)]), "collection_constraint");
+            }
+        }
+    }
+
     // 5. queries built through the public API
     let nb = if thorough { 60000 } else { 6000 };
     for i in 0..nb {
@@ -1244,6 +1385,6 @@ pub fn generate(out: &mut Out, tier: &str, seed: u64) {
     }
 }
 
-pub const RULE: &str = "Texts: every keyword (46) after every query head (12) with every operand tail (17); numeric literals with signs {'', -, +, --, -+} and 0..22 digits (and range boundaries) in every numeric position (VALUE/DATA operators, list items, LIMIT, OFFSET cursors, assignments); every operator x every value surface; every identifier of a 38-string pool (reserved words, ?-prefixed, quotes, backslashes, separators, multi-byte) quoted and unquoted in every argument position; seeded grammar-derived queries (SELECT/ADD/DELETE, attributes, qualifiers, offsets, unions, sub-queries, varied white space incl. multi-byte) with their truncation at every character and single-character substitutions/insertions/deletions from a 27-character special set (braces, brackets, pipe, quote, backslash, ?, @, ASCII and multi-byte white space, NUL, non-BMP); exhaustive position x character edits of fixed queries; random strings over keywords and special characters; four long queries with 2-, 3- and 4-byte characters shifted by 0..3 ASCII characters, each with its truncation at every character, every single-character deletion and insertions of quote/separator/multi-byte characters at every position; unterminated quoted strings and separator-free tokens of 26..70 bytes over six multi-byte fill patterns x shift 0..3 behind seven argument positions (error paths that cut the remaining text by byte count). Built queries: random trees over all 21 parser-level constraint variants, all data operators, nested unions and sub-queries, built with Query::new/with_constraint/with_subquery, a quarter of them with strings from the pool (known classes). Each case: outcome class and tree of Query::parse, TryFrom, printed text, and tree + text of parsing/printing the printed text. Non-trivial: parsed (or built), printed and parsed back. distinct = distinct request lines.";
+pub const RULE: &str = "Texts: every keyword (46) after every query head (12) with every operand tail (17); numeric literals with signs {'', -, +, --, -+} and 0..22 digits (and range boundaries) in every numeric position (VALUE/DATA operators, list items, LIMIT, OFFSET cursors, assignments); every operator x every value surface; every identifier of a 38-string pool (reserved words, ?-prefixed, quotes, backslashes, separators, multi-byte) quoted and unquoted in every argument position; seeded grammar-derived queries (SELECT/ADD/DELETE, attributes, qualifiers, offsets, unions, sub-queries, varied white space incl. multi-byte) with their truncation at every character and single-character substitutions/insertions/deletions from a 27-character special set (braces, brackets, pipe, quote, backslash, ?, @, ASCII and multi-byte white space, NUL, non-BMP); exhaustive position x character edits of fixed queries; random strings over keywords and special characters; four long queries with 2-, 3- and 4-byte characters shifted by 0..3 ASCII characters, each with its truncation at every character, every single-character deletion and insertions of quote/separator/multi-byte characters at every position; unterminated quoted strings and separator-free tokens of 26..70 bytes over six multi-byte fill patterns x shift 0..3 behind seven argument positions (error paths that cut the remaining text by byte count). Built queries: random trees over all 21 parser-level constraint variants, all data operators, nested unions and sub-queries, built with Query::new/with_constraint/with_subquery, a quarter of them with strings from the pool (known classes). Collection constraints (Annotations, Data, Keys, Resources, TextSelections with Handles over a fixed store with two resources and two data sets whose handle numbers coincide): every sequence of up to 3 items x qualifier x depth, printed text compared with the model's printing of what the store says about each item, and the parse of the printed text compared with the union of the items' constraints. Each case: outcome class and tree of Query::parse, TryFrom, printed text, and tree + text of parsing/printing the printed text. Non-trivial: parsed (or built), printed and parsed back. distinct = distinct request lines.";
 
 pub const EXHAUSTIVE: bool = false;
